@@ -2,6 +2,8 @@ package c13
 
 import (
 	"bytes"
+	"flag"
+	"hash/fnv"
 	"math/big"
 	"testing"
 
@@ -80,11 +82,12 @@ func fuzzPoints(f *testing.F, names ...string) {
 	for _, n := range names {
 		gs = append(gs, groupBy[n])
 	}
-	for _, s := range pointSeeds(gs) {
-		f.Add(s)
-	}
+	addSeeds(f, pointSeeds(gs))
 	test := f.Name()
 	f.Fuzz(func(t *testing.T, b []byte) {
+		if notMine(b) {
+			return
+		}
 		for _, g := range gs {
 			for _, format := range decodeFormats {
 				res, err := runDecoder(t, g, format, b)
@@ -100,6 +103,34 @@ func fuzzPoints(f *testing.F, names ...string) {
 		}
 		vlib.Case(test, vlib.Desc(len(b), firstByte(b)), true)
 	})
+}
+
+// fuzzing reports whether the binary runs with -fuzz (coordinator or worker). Without it the
+// targets are plain tests over their seed corpus, and the corpus is split among the shards.
+func fuzzing() bool {
+	for _, name := range []string{"test.fuzz", "test.fuzzworker"} {
+		if fl := flag.Lookup(name); fl != nil && fl.Value.String() != "" && fl.Value.String() != "false" {
+			return true
+		}
+	}
+	return false
+}
+
+func addSeeds(f *testing.F, seeds [][]byte) {
+	for _, s := range seeds {
+		f.Add(s)
+	}
+}
+
+// notMine: as a plain test every shard sees the whole seed corpus (so that seed#N names the same
+// input everywhere, also in a replay); each input is judged by one shard only.
+func notMine(b []byte) bool {
+	if fuzzing() || vlib.Replaying() {
+		return false
+	}
+	h := fnv.New32a()
+	_, _ = h.Write(b)
+	return !vlib.Mine(int(h.Sum32() % 1009))
 }
 
 func firstByte(b []byte) int {
@@ -140,11 +171,12 @@ func fuzzFields(f *testing.F, names ...string) {
 	for _, n := range names {
 		fs = append(fs, fieldBy[n])
 	}
-	for _, s := range fieldSeeds(fs) {
-		f.Add(s)
-	}
+	addSeeds(f, fieldSeeds(fs))
 	test := f.Name()
 	f.Fuzz(func(t *testing.T, b []byte) {
+		if notMine(b) {
+			return
+		}
 		for _, fd := range fs {
 			for _, dec := range fd.decs {
 				res, err := runFieldDecoder(t, fd, dec, b)
@@ -188,6 +220,9 @@ func FuzzGtDecode_bls12381(f *testing.F) {
 	f.Add([]byte{})
 	test := f.Name()
 	f.Fuzz(func(t *testing.T, b []byte) {
+		if notMine(b) {
+			return
+		}
 		res, err := runGt(t, b)
 		outcome := judgeGt(t, b, res, err)
 		vlib.Case(test, vlib.Desc(len(b), firstByte(b)), true, outcome)
